@@ -37,7 +37,7 @@ def cases(tier, seed):
             gap = False
             if geom == 'irregular':
                 # (line numbering from 0 included: the hash is decided at conversion time, the reading of such files - C08's known finding - is not involved)
-                kw = {'holes': conv.pick_holes(rng, nI, nX), 'il': [rng.choice([0, 1, 5]), rng.choice([1, 2])], 'xl': [rng.choice([0, 1, 20]), rng.choice([1, 3])]}
+                kw = {'holes': conv.pick_holes(rng, nI, nX), 'il': [rng.choice([0, 1, 5]), rng.choice([1, 2])], 'xl': [rng.choice([0, 1, 20, -30]), rng.choice([1, 3])]}
                 if i % 12 == 3 and nI >= 5:
                     # a whole inline (the second one) was never acquired: the numbering has a gap right after the first line
                     gh = gap_holes(rng, nI, nX)
